@@ -106,8 +106,8 @@ def judge(it, ob, ot, op, os_):
     # whose compiled form is continuous: same verdict class and optimum as the one-shot solver
     for chain in ('real', 'steps'):
         oc = op.get('_' + chain)
-        if oc is None or not oks.get('text') or not lin.lm_is_continuous(lins['text']['ok']):
-            continue
+        if oc is None or not oks.get('text') or not lin.lm_is_continuous(lins['text']['ok']) or m['obj']['dir'] == 'solve':
+            continue   # (the standard-form / tableau chain documents min and max only)
         sc = sol_summary(oc.get('solve') or oc.get('err'))
         ref_s = sols['solver']
         res['chains'] = res.get('chains', 0) + 1
@@ -156,7 +156,7 @@ def work(chunk):
     jobs = []
     for it in chunk:
         bm = it['builder_model']
-        for order in ('obj_last', 'obj_first', 'with_all'):
+        for order in ('obj_last', 'obj_first', 'with_all', 'override'):
             jobs.append({'cmd': 'builder', 'model': bm, 'order': order, 'solve': order == 'obj_last'})
         jobs.append({'cmd': 'text', 'src': it['src'], 'want': []})
         jobs.append({'cmd': 'pipe', 'src': it['src'], 'solver': 'auto'})
@@ -166,10 +166,11 @@ def work(chunk):
     outs = run_driver(jobs)
     results = []
     for i, it in enumerate(chunk):
-        o = outs[8 * i: 8 * i + 8]
+        o = outs[9 * i: 9 * i + 9]
+        ob_override = o.pop(3)
         o[4] = dict(o[4], _real=o[6], _steps=o[7])
         try:
-            ob = {'obj_last': o[0], 'obj_first': o[1], 'with_all': o[2]}
+            ob = {'obj_last': o[0], 'obj_first': o[1], 'with_all': o[2], 'override': ob_override}
             r = judge(it, ob, o[3], o[4], o[5])
             if it['idx'] % 20 == 0 and 'ok' in (o[3].get('model') or {}).get('lin', {}):
                 o3 = copy.deepcopy(o[3])
@@ -485,8 +486,8 @@ def main(prop='C16'):
     evidence = {
         'level': 'translation_validation', 'tier': t, 'seed': sd,
         'coverage': {
-            'programs': len(items), 'front_door_runs': 8 * len(items), 'continuous_pipe_chain_runs_judged': chains_run, 'by_status': by_status, 'disagreements_checked': stats['queries'], 'queries': stats,
-            'obligations_per_program': ['all doors accept or all reject', 'pairwise projection equivalence of the compiled linear models (exists/forall) for builder x3 orders, text, pipe',
+            'programs': len(items), 'front_door_runs': 9 * len(items), 'continuous_pipe_chain_runs_judged': chains_run, 'by_status': by_status, 'disagreements_checked': stats['queries'], 'queries': stats,
+            'obligations_per_program': ['all doors accept or all reject', 'pairwise projection equivalence of the compiled linear models (exists/forall) for builder x4 call orders (objective last / first / with_all / a throw-away objective replaced by the real one), text, pipe',
                                         'same verdict and optimum from builder.solve_with(Auto), PipeRunner(auto) and RoocSolver; the answer judged against the source by the C03 oracle queries',
                                         'evaluated: builder call order gives the identical model; text and pipe models identical row for row; handle / name / eval read-back agree; unused builder variables inside their domain'],
             'counterexamples_found': len(todo), 'counterexamples_confirmed_against_real_code': confirmed, 'confirmed_by_class': classes,
